@@ -103,6 +103,10 @@ type progOpts struct {
 	budget   int64
 	keyDepth int
 	fixedKey string // probes of recorded findings report under this key
+	r1Fuel   int
+	r1Depth  int
+	keyExtra string // replaces the shape part of the violation key
+	onEnv    func(tr *zy.Traced)
 }
 
 type progResult struct {
@@ -136,6 +140,12 @@ func diffProgram(c *engine.Ctx, id string, prelude, forms []*ref.T, style int, o
 	c.Begin(w)
 	r1 := ref.NewR1()
 	r1.FailAt = o.failAt
+	if o.r1Fuel > 0 {
+		r1.Fuel = o.r1Fuel
+	}
+	if o.r1Depth > 0 {
+		r1.MaxDepth = o.r1Depth
+	}
 	if _, un := r1.RunProgram(prelude); un != "" {
 		panic("prelude unmodelled: " + un)
 	}
@@ -161,12 +171,18 @@ func diffProgram(c *engine.Ctx, id string, prelude, forms []*ref.T, style int, o
 	}
 	tr.Trace = nil
 	tr.HCalls = 0
+	if o.onEnv != nil {
+		o.onEnv(tr)
+	}
 	res := tr.Run(layout(forms, style))
 	kd := o.keyDepth
 	if kd == 0 {
 		kd = 3
 	}
 	sk := shapeKey(forms, kd)
+	if o.keyExtra != "" {
+		sk = o.keyExtra
+	}
 	viol := func(clause, detail string) {
 		key := id + "/" + clause + "/" + sk
 		if o.fixedKey != "" {
